@@ -26,6 +26,7 @@ import (
 	oracletypes "github.com/Sifchain/sifnode/x/oracle/types"
 	trtypes "github.com/Sifchain/sifnode/x/tokenregistry/types"
 	sdk "github.com/cosmos/cosmos-sdk/types"
+	gethCommon "github.com/ethereum/go-ethereum/common"
 	gogotypes "github.com/gogo/protobuf/types"
 )
 
@@ -217,7 +218,7 @@ func (g *docGen) genSections() map[string]json.RawMessage {
 	if dg.Claims != nil {
 		dg.Claims.UserClaims = uniqBy(dg.Claims.UserClaims, func(c *disptypes.UserClaim) string { return fmt.Sprintf("%s|%d", c.UserAddress, c.UserClaimType) })
 	}
-	out["dispensation"] = disptypes.ModuleCdc.MustMarshalJSON(&dg)
+	out["dispensation"] = cdc.MustMarshalJSON(&dg)
 
 	var eg epochstypes.GenesisState
 	g.fill(reflect.ValueOf(&eg).Elem(), "", 0)
@@ -228,7 +229,7 @@ func (g *docGen) genSections() map[string]json.RawMessage {
 	g.fill(reflect.ValueOf(&bg).Elem(), "", 0)
 	bg.PeggyTokens = uniqBy(bg.PeggyTokens, func(s string) string { return s })
 	for i := range bg.Blacklist {
-		bg.Blacklist[i] = fmt.Sprintf("0x%040x", g.r.U64())
+		bg.Blacklist[i] = gethCommon.BigToAddress(g.r.BigBits(150)).Hex() // canonical (EIP-55) spelling
 	}
 	bg.Blacklist = uniqBy(bg.Blacklist, func(s string) string { return s })
 	out["ethbridge"] = cdc.MustMarshalJSON(&bg)
@@ -282,7 +283,7 @@ func validateSections(sec map[string]json.RawMessage) error {
 		return err
 	}
 	var dg disptypes.GenesisState
-	if err := disptypes.ModuleCdc.UnmarshalJSON(sec["dispensation"], &dg); err != nil {
+	if err := cdc.UnmarshalJSON(sec["dispensation"], &dg); err != nil {
 		return err
 	}
 	if err := dispensation.ValidateGenesis(dg); err != nil {
@@ -304,7 +305,7 @@ func roundTripDocument(out *Out, rng *Rng, idx int, obs map[string]int) {
 	for try := 0; try < 20 && !ok; try++ {
 		sec = g.genSections()
 		if err := validateSections(sec); err != nil {
-			obs["doc-regenerated(not well-formed)"]++
+			obs["doc-regenerated(not well-formed):"+sanitize(err.Error())]++
 			continue
 		}
 		ok = true
@@ -327,7 +328,16 @@ func roundTripDocument(out *Out, rng *Rng, idx int, obs map[string]int) {
 	c, perr := importApp(fmt.Sprintf("doc-%d", idx), doc0, h0, 1700000000, bl)
 	if perr != "" {
 		// a document that ValidateGenesis accepts but InitGenesis cannot load: recorded, not judged here (C10's concern)
-		obs["doc-init-panicked:"+sanitize(perr)[:40]]++
+		obs["doc-init-panicked:"+sanitize(perr)]++
+		for m, s := range sec { // which module's section cannot be loaded?
+			var st map[string]json.RawMessage
+			json.Unmarshal(base, &st)
+			st[m] = s
+			one, _ := json.Marshal(st)
+			if _, e := importApp("probe", one, h0, 1700000000, bl); e != "" {
+				obs["doc-init-panicked-in:"+m]++
+			}
+		}
 		out.Emit("note document rejected by InitGenesis", "ok", "doc-initpanic", false)
 		return
 	}
